@@ -53,11 +53,17 @@ pub fn with_config<F, R>(f: F) -> anyhow::Result<R>
 where
     F: FnOnce(&UpdateConfig) -> anyhow::Result<R>,
 {
+    #[cfg(feature = "verif-hooks")]
+    crate::verif_hooks::before_lock(crate::verif_hooks::LockId::Config);
+    #[cfg(feature = "verif-hooks")]
+    let _released = crate::verif_hooks::Released::new(crate::verif_hooks::LockId::Config);
     // expect() here should be OK, it's job is to propagate a panic across
     // threads if the lock is poisoned.
     let lock = global_config()
         .lock()
         .expect("Failed to acquire updater lock.");
+    #[cfg(feature = "verif-hooks")]
+    let _depth = crate::verif_hooks::DepthGuard::new(crate::verif_hooks::LockId::Config);
     check_initialized_and_call(f, &lock)
 }
 
@@ -65,9 +71,15 @@ pub fn with_config_mut<F, R>(f: F) -> R
 where
     F: FnOnce(&mut Option<UpdateConfig>) -> R,
 {
+    #[cfg(feature = "verif-hooks")]
+    crate::verif_hooks::before_lock(crate::verif_hooks::LockId::Config);
+    #[cfg(feature = "verif-hooks")]
+    let _released = crate::verif_hooks::Released::new(crate::verif_hooks::LockId::Config);
     let mut lock = global_config()
         .lock()
         .expect("Failed to acquire updater lock.");
+    #[cfg(feature = "verif-hooks")]
+    let _depth = crate::verif_hooks::DepthGuard::new(crate::verif_hooks::LockId::Config);
     f(&mut lock)
 }
 
